@@ -321,3 +321,41 @@ func FuzzC05(f *testing.F) {
 		judge(t, "c05", mutCase{Wire: b}, checkC05)
 	})
 }
+
+// TestC05_CritShapes: a protected header {1: alg, 4: kid, "t": 1, 2: V} in every layer of every kind, with V
+// running over values that are not a non-empty array of present labels but resemble one (a byte string whose
+// bytes are present labels, a text of them, a single label, nested arrays, maps keyed by labels ...).
+func TestC05_CritShapes(t *testing.T) {
+	begin(t, "C05", "critshapes")
+	vals := []rc.Val{
+		rc.Bytes([]byte{1}), rc.Bytes([]byte{4}), rc.Bytes([]byte{1, 4}), rc.Bytes([]byte{2}), rc.Bytes(nil), rc.Bytes([]byte{0}), rc.Bytes([]byte{'t'}),
+		rc.Text("\x01"), rc.Text("t"), rc.Text("\x01\x04"), rc.Text(""),
+		rc.Int(1), rc.Int(4), rc.Int(0), rc.Text("t"),
+		rc.Array(), rc.Array(rc.Array(rc.Int(1))), rc.Array(rc.Bytes([]byte{1})), rc.Array(rc.Int(1), rc.Array()), rc.Array(rc.Map()),
+		rc.Array(rc.Int(1)), rc.Array(rc.Int(4), rc.Text("t")), rc.Array(rc.Int(1), rc.Int(1)), rc.Array(rc.Text("u")), rc.Array(rc.Int(5)), rc.Array(rc.Int(2)),
+		rc.Map(), rc.Map(rc.E(rc.Int(1), rc.Int(1))), rc.Map(rc.E(rc.Int(0), rc.Int(1)), rc.E(rc.Int(1), rc.Int(4))),
+		rc.Bool(true), rc.Bool(false), rc.Null, rc.Float(1), rc.Tag(99, rc.Array(rc.Int(1))),
+	}
+	n := 0
+	for _, v := range vals {
+		prot := rc.Encode(rc.Bytes(rc.Encode(rc.Map(rc.E(rc.Int(1), rc.Int(-7)), rc.E(rc.Int(4), rc.Bytes([]byte("k"))), rc.E(rc.Text("t"), rc.Int(1)), rc.E(rc.Int(2), v)), nil)), nil)
+		layer := func(p []byte) []byte { return append(append(append([]byte{0x83}, p...), 0xa0), 0x41, 0x01) }
+		inputs := map[refcose.Kind][][]byte{
+			refcose.KProtected:        {prot},
+			refcose.KSign1:            {append(append(append([]byte{0xd2, 0x84}, prot...), 0xa0, 0x41, 0x70), 0x41, 0x01), append(append([]byte{0xd2, 0x84, 0x40, 0xa1, 0x0b}, layer(prot)...), 0x41, 0x70, 0x41, 0x01)},
+			refcose.KSign1Untagged:    {append(append(append([]byte{0x84}, prot...), 0xa0, 0x41, 0x70), 0x41, 0x01)},
+			refcose.KSign:             {append(append(append([]byte{0xd8, 0x62, 0x84}, prot...), 0xa0, 0x41, 0x70, 0x81), layer([]byte{0x40})...), append([]byte{0xd8, 0x62, 0x84, 0x40, 0xa0, 0x41, 0x70, 0x81}, layer(prot)...)},
+			refcose.KSignature:        {layer(prot)},
+			refcose.KCountersignature: {layer(prot)},
+		}
+		for _, k := range allKinds {
+			for _, w := range inputs[k] {
+				n++
+				stats.Eval()
+				stats.NTBytes(w)
+				judge(t, "c05", mutCase{SeedKind: k, Wire: w, Muts: []gen.Mutation{{Op: "crit-shape/" + v.String()}}}, checkC05)
+			}
+		}
+	}
+	stats.ExhaustivePart("crit value shapes x layers", n)
+}
